@@ -47,6 +47,8 @@ def c03_judge(entry: str, content: str, o: tuple) -> str | None:
     if kind == "exc":
         if o[1] == "TokenError":
             return None
+        if o[1] == "RecursionError":
+            return "exc|RecursionError|-"  # where the limit bites depends on the caller's own depth
         return f"exc|{o[1]}|{o[3]}"
     if kind == "budget":
         return f"budget|{o[1]}"
@@ -144,6 +146,8 @@ def build_bases(tier: str) -> list[dict]:
             if t is not None and t != b["text"]:
                 extra.append({"text": t, "spelling": "TAB", "carrier": b["carrier"]})
                 n_tab += not b["carrier"]
+    for t in pool.deep_valid():
+        extra.append({"text": t, "spelling": "LF", "carrier": False, "deep": True})
     seen = set()
     out = []
     for b in bases + extra:
@@ -198,9 +202,11 @@ def build_tasks(tier: str, bases: list[dict]) -> list[dict]:
     for bi, b in enumerate(bases):
         t = b["text"]
         is_expr = pool.looks_like_expression(t)
-        common = {"base": t, "base_index": bi, "is_expr": is_expr, "spelling": b["spelling"]}
+        common = {"base": t, "base_index": bi, "is_expr": is_expr, "spelling": b["spelling"], "deep": bool(b.get("deep"))}
         tasks.append({**common, "part": "base"})
         tasks.append({**common, "part": "trunc"})
+        if b.get("deep"):
+            continue
         exhaustive = len(t) <= cfg["exh_limit"] and (b["carrier"] or not cfg["exh_carriers_only"])
         if exhaustive:
             step = max(1, cfg["batch"] // len(worldb.ALPHABET))
@@ -287,7 +293,7 @@ def run_batch(batch: dict) -> dict:
                     # violation is already established, so the rest of the batch is skipped (and said so)
                     res["cut_short"] = True
                     break
-                if pool._nesting(content) > MAX_DAMAGED_NEST:
+                if pool._nesting(content) > MAX_DAMAGED_NEST and not task.get("deep"):
                     # the diagnostic second pass is exponential in list-display nesting (3x per level; depth 10 with
                     # an error needs 1.3e7 back-edges and still terminates): beyond this depth a step budget could
                     # not tell slow from stuck, so such contents are out of scope and counted
